@@ -97,6 +97,8 @@ def detect(name):
         sh("git -C /repo checkout -- .")
         rc, out = sh("git -C /repo status --porcelain --untracked-files=no")
         assert out.strip() == "", out
+        # the checks rewrote the evidence files while the patch was applied: put the committed ones back
+        sh("git -C /verif checkout -- evidence")
     return res
 
 
